@@ -10,6 +10,7 @@ package checks
 import (
 	"encoding/json"
 	"fmt"
+	"io"
 	"net"
 	"os"
 	"os/exec"
@@ -120,6 +121,18 @@ func c12Run(c c12Case, base string) (string, string) {
 			if !waitNotice(`Shell is gone`) {
 				return fail("pre-attempt-lost", "no 'gone' notice after a half-attached input left")
 			}
+		case "plain-http":
+			/* A client that does not speak TLS (a browser pointed at
+			http://, curl without -k to the wrong scheme, a scanner): the
+			server notes a handshake error, nothing more. */
+			cn, err := net.DialTimeout("tcp", addr, 5*time.Second)
+			if nil != err {
+				return fail("listener-closed-early", fmt.Sprintf("pre-attempt %d (%s): %v", i, pre, err))
+			}
+			cn.Write([]byte("GET / HTTP/1.0\r\nHost: x\r\n\r\n"))
+			cn.SetReadDeadline(time.Now().Add(5 * time.Second))
+			io.Copy(io.Discard, cn)
+			cn.Close()
 		case "silent-tcp":
 			/* A TCP connection on which nothing is ever sent (a port
 			scan, nc, a client stalled before its handshake), opened just
@@ -458,6 +471,11 @@ func c12(r *ev.Result, tier string) {
 	}
 	for _, arr := range []string{"in-out", "io"} {
 		cases = append(cases, c12Case{Arrival: arr, Ending: "eof", Trigger: "line", QuietMs: long})
+	}
+	/* Clients that do not speak TLS, before the shell. */
+	for _, arr := range []string{"in-out", "io"} {
+		cases = append(cases, c12Case{Pre: []string{"plain-http"}, Arrival: arr, Ending: "eof", Trigger: "line"})
+		cases = append(cases, c12Case{Pre: []string{"plain-http", "plain-http"}, Arrival: arr, Traffic: true, Ending: "close-both", Trigger: "ctrl-d"})
 	}
 	/* A silent TCP connection that outlives the shell. */
 	for _, arr := range []string{"in-out", "io"} {
